@@ -37,6 +37,9 @@ FIXED = [
  ("fix: a block comment whose text ends in", ["C15"], "`find --( x )-)-- all 'a'` rejected as an unending block comment"),
  ("fix: whitespace or a comment after the amount clause", ["C15"], "`find all` is accepted but `find all ` (trailing blank) was rejected"),
  ("fix: Matches.Json() converts", ["C17","C18"], "Matches.Json() panicked on every call (type assertion on the named slice type), so `-json` could not work"),
+ ("fix: a binding made inside a named loop on an abandoned path", ["C02","C03"], "`find all at least 1 (('a' = x 'b') or ('a' 'c')) named lp` on 'ac' reported lp/0/x='a': the saved choice point shared the named loop's per-iteration variable maps with the abandoned path"),
+ ("fix: a named loop refuses an empty mandatory iteration", ["C01","C02"], "`find all at least 2 (maybe 'a') named lp` on 'a' found nothing although the same loop without a name matches [0,1): the zero-length-iteration guard also rejected required iterations"),
+ ("fix: compiling a loop costs time and memory in proportion to its minimum count", ["C08"], "Compile(\"find all exactly 2147483647 'a'\") never returned and exhausted memory: the mandatory iterations of a loop were unrolled"),
  ("fix: `*` in a file pattern", ["C20"], "`*.txt` did not select `a.txt.txt`, `a*b` did not select `abxb` (first-occurrence search)"),
  ("fix: ParsePath no longer prints", ["C18"], "`vore -com .. -files a.txt -json` printed `[{entryType:2 value:a.txt}]` before the JSON document"),
  ("fix: -json-file / -formatted-json-file open", ["C18"], "`vore .. -json-file out.json` panicked: truncate out.json: invalid argument (file opened read-only)"),
